@@ -183,11 +183,13 @@ def shards(tier):
     for o1 in range(N_OPS):
         if o1 in (5, 8):
             continue
+        if q and o1 in (3, 6):
+            continue       # quick: programs do not start with inspect_value / _state_push (they occur at the later positions)
         for o2 in range(N_OPS):
             c = dict(k=k, o1=o1, o2=o2)
             for j in range(k + 1, 6):
                 c.update({'o%d' % j: 0, 't%d' % j: 0})
-            out.append(dict(name='o%d%d' % (o1, o2), module='harness.c19', fn='prog', consts=c, budget_s=60 if q else 600))
+            out.append(dict(name='o%d%d' % (o1, o2), module='harness.c19', fn='prog', consts=c, budget_s=40 if q else 600))
     return out
 
 
